@@ -262,3 +262,22 @@ PROPS["C07"] = {
     "technique": "Coq proof (codec round-trips by induction on text, Flocq rounding-error bound) + differential correspondence of codecs",
     "design": "DESIGN.md §3 C07",
 }
+
+PROPS["C03"] = {
+    "text": "Theorems over an ownership model of message handling and shutdown (Shutdown.v; events = atomic blocks: delivery to the "
+            "loop, spawn, give-back, loop cancellation, begin/effect of the terminal broker call, task end, cancel event, the "
+            "wrapper's cancel + reject, consumer.finish()), for ALL accepted event sequences - i.e. the stop request, the forced "
+            "cancellation and the consumers' shutdown landing on any step of any phase: every message exists exactly once at every "
+            "moment (exactly_one_place), and once the consumers are finished nothing is in flight and every message is either "
+            "disposed or back in the waiting list, never both, never neither (stop_no_loss; true since the fix recorded for C03, "
+            "refuted by a six-step witness for the old order). Tie: the real Worker in virtual time with the stop signal injected at "
+            "chosen event-loop iterations (a stratified sample per scenario in quick, EVERY busy iteration in thorough: ~18k runs), "
+            "each single-queue run's trace accepted by the model and ending in the observed places; oracle on every run: place, "
+            "parameters (retry counter unchanged), terminal calls, return within graceful + 7 s.",
+    "note": "In-memory broker only: the process-death clause (Redis keeps in-flight state outside the process; recovery after the "
+            "execution timeout by maintenance) is NOT covered in this revision - no Redis model or fake exists yet (DESIGN.md §6). "
+            "The return bound is checked by the oracle in virtual time, not proved. Actors are assumed to end when cancelled; cancelled "
+            "tasks are assumed to end within the runner's 1 s allowance. Two-queue runs are checked by the oracle only.",
+    "technique": "Coq proof by ownership/counting invariant over all event sequences + crash-point enumeration with trace acceptance",
+    "design": "DESIGN.md §3 C03",
+}
